@@ -59,6 +59,7 @@ type Facts struct {
 	Monitor  []MonFunc   `json:"monitor"`
 	IDReads  []Site      `json:"id_reads"`
 	Protocol []string    `json:"layout_protocol"`
+	OptWrites []string   `json:"layout_option_writes"`
 	RefInits [][3]string `json:"ref_inits"`
 }
 
@@ -193,6 +194,7 @@ func analyse(fset *token.FileSet, rel string, pkg *types.Package, files []*ast.F
 			}
 			if fname == "autolayout.go" && fn == "Layout" {
 				facts.Protocol = layoutProtocol(fset, fd)
+				facts.OptWrites = layoutOptionWrites(fset, fd)
 			}
 			// parameters and receivers of slice or map type: writing an element through them changes the caller's data
 			isParam := map[*types.Var]bool{}
@@ -565,6 +567,44 @@ func layoutProtocol(fset *token.FileSet, fd *ast.FuncDecl) []string {
 	return out
 }
 
+// layoutOptionWrites lists the statements of Layout (at any depth) that assign to a part of its local copy of the
+// options (the variable initialised from defaultOptions): after the Option functions have been applied the options
+// must be the same for every connected component, whatever the whole graph looks like.
+func layoutOptionWrites(fset *token.FileSet, fd *ast.FuncDecl) []string {
+	out := []string{}
+	var optVars []string
+	ast.Inspect(fd.Body, func(n ast.Node) bool {
+		switch st := n.(type) {
+		case *ast.AssignStmt:
+			if st.Tok == token.DEFINE && len(st.Lhs) == 1 && len(st.Rhs) == 1 {
+				if id, ok := st.Lhs[0].(*ast.Ident); ok && src(fset, st.Rhs[0]) == "defaultOptions" {
+					optVars = append(optVars, id.Name)
+					return true
+				}
+			}
+			for _, l := range st.Lhs {
+				if r := rootIdent(l); r != nil {
+					for _, v := range optVars {
+						if r.Name == v {
+							out = append(out, src(fset, st))
+						}
+					}
+				}
+			}
+		case *ast.IncDecStmt:
+			if r := rootIdent(st.X); r != nil {
+				for _, v := range optVars {
+					if r.Name == v {
+						out = append(out, src(fset, st))
+					}
+				}
+			}
+		}
+		return true
+	})
+	return out
+}
+
 func coqStr(s string) string { return `"` + strings.ReplaceAll(s, `"`, `""`) + `"` }
 
 func coq(f Facts) string {
@@ -640,6 +680,13 @@ func coq(f Facts) string {
 	}
 	b.WriteString("].\n\n(* top-level statements of Layout up to the deferred Reset *)\nDefinition layout_protocol : list string := [")
 	for i, p := range f.Protocol {
+		if i > 0 {
+			b.WriteString("; ")
+		}
+		b.WriteString(coqStr(p))
+	}
+	b.WriteString("].\n\n(* assignments in Layout to its own copy of the options *)\nDefinition layout_option_writes : list string := [")
+	for i, p := range f.OptWrites {
 		if i > 0 {
 			b.WriteString("; ")
 		}
